@@ -7,6 +7,7 @@ the MemoryCache table was ever touched while its lock was not held.
 """
 import argparse
 import itertools
+import json
 import os
 import random
 import shutil
@@ -168,7 +169,11 @@ def run_schedule(spec, roots, jobs, schedule, ref_vals, clear_layer=None):
     return {'schedule': ''.join(map(str, schedule)), 'results': results, 'unlocked': list(UNLOCKED), 'stuck': stuck, 'points': SCHED.points}
 
 
-def compile_race(spec, roots, jobs, ref_vals, max_points=6000, warm=None):
+# where the objects shared by all calls of a pipeline live: a race between two later calls is explored line by line inside these files
+SHARED_STATE_FILES = (os.sep + 'cache' + os.sep, os.sep + 'layers' + os.sep, 'edges.py', os.sep + 'containers' + os.sep)
+
+
+def compile_race(spec, roots, jobs, ref_vals, max_points=6000, warm=None, only=None):
     """first calls of two threads on a pipeline object nobody has used yet: thread 0 is paused after its N-th executed line of
     connectome code, thread 1 runs to the end meanwhile, then thread 0 goes on; N = 0, 1, 2, ... until thread 0 needs fewer lines"""
     import connectome
@@ -194,6 +199,8 @@ def compile_race(spec, roots, jobs, ref_vals, max_points=6000, warm=None):
 
         def tracer(frame, event, arg):
             if not frame.f_code.co_filename.startswith(prefix):
+                return None
+            if only is not None and not any(x in frame.f_code.co_filename[len(prefix):] for x in only):
                 return None
 
             def local(frame, event, arg):
@@ -222,24 +229,27 @@ def compile_race(spec, roots, jobs, ref_vals, max_points=6000, warm=None):
         reached.wait(10)
         t1 = threading.Thread(target=work, args=(1,) + tuple(jobs[1]))
         t1.start()
-        t1.join(10)
+        t1.join(1.5)    # thread 1 does not finish when thread 0 was paused while holding a lock it needs
         resume.set()
-        t0.join(10)
+        t0.join(20)
+        t1.join(20)
         bad = [i for i in (0, 1) if results[i] is None or results[i].get('val') != ref_vals[i]]
-        # ... and what the race left behind: the same calls again, one after the other
+        # ... and what the race left behind: the same calls again, one after the other (the call of thread 1 first, then both)
         after = []
-        for (f_, k_), ref_ in zip(jobs, ref_vals):
+        for j in (1, 0, 1):
+            (f_, k_), ref_ = jobs[j], ref_vals[j]
             try:
-                after.append({'val': to_json(getattr(layer, f_)(k_))})
+                after.append({'call': [f_, k_], 'val': to_json(getattr(layer, f_)(k_))})
             except BaseException as e:  # noqa
-                after.append({'exc': f'{type(e).__name__}: {e}'[:200]})
-        bad += [i for i in (0, 1) if after[i].get('val') != ref_vals[i]]
+                after.append({'call': [f_, k_], 'exc': f'{type(e).__name__}: {e}'[:200]})
+            if after[-1].get('val') != ref_:
+                bad.append(j)
         if bad:
             out.append({'pause_after_line': n, 'results': results, 'sequential_calls_afterwards': after})
         if count[0] <= n:
             break
         n += step
-        step = 1 + n // 80
+        step = 1 if only is not None else 1 + n // 80
     return {'points': n, 'bad': out[:3]}
 
 
@@ -291,12 +301,14 @@ def main():
             SCHED.enabled = False
             ref_cr = [to_json(getattr(ref, f)(k)) for f, k in jobs_cr]
             rec['compile_race'] = dict(compile_race(spec, roots, jobs_cr, ref_cr), jobs=jobs_cr)
+        if nthreads == 2 and (ci % 3 == 0 or '"disk"' in json.dumps(spec)):
+            SCHED.enabled = False
             if len(ids) >= 3:
                 # two later calls of one field on different keys, on a pipeline that has been used before
                 f_ = rnd.choice(fields)
                 jobs_w = [(f_, ids[0]), (f_, ids[1])]
                 ref_w = [to_json(getattr(ref, f)(k)) for f, k in jobs_w]
-                rec['call_race'] = dict(compile_race(spec, roots, jobs_w, ref_w, max_points=3000, warm=(f_, ids[2])), jobs=jobs_w)
+                rec['call_race'] = dict(compile_race(spec, roots, jobs_w, ref_w, max_points=3000, warm=(f_, ids[2]), only=SHARED_STATE_FILES), jobs=jobs_w)
         out.append(rec)
         for r in roots:
             shutil.rmtree(r, ignore_errors=True)
